@@ -49,4 +49,21 @@ theorem unproject_project {K : Type} [Field K] [CharZero K] {o : Ops K} (ho : Fi
   Family.frac_divfree_sound ho (all_ok f_unprojP (by simp [families])) rfl rfl (ks := [d]) hd (j := j) hj env hdiv
     (by intro x hx; simp [f_unprojP, v, E.divisors] at hx)
 
+/-- **walk-mode families** (the code asks its questions in another order, or uses other but equivalent comparisons, than the
+specification tree): for every input the traced tree and the specification tree evaluate alike, in every ordered field —
+polynomial leaves unconditionally, -/
+theorem walk_families_correct {K : Type} [Field K] [LinearOrder K] [IsStrictOrderedRing K] {o : Ops K} (ho : OrderedEqLike o)
+    (f : Family) (hf : f ∈ families) (htm : f.treeMode = true) (hw : f.treeWalk = true) (hk : f.kind = .poly)
+    (ks : List Nat) (hks : ks ∈ f.keys) (j : Nat) (hj : j < f.nOut ks) (env : Nat → K) :
+    ((lookup f.unit ks).out j).eval o env = (f.specT ks j).eval o env :=
+  Family.walk_poly_sound ho (all_ok f hf) htm hw hk hks hj env
+
+/-- rational leaves whenever neither selected leaf divides by zero. -/
+theorem walk_frac_families_correct {K : Type} [Field K] [LinearOrder K] [IsStrictOrderedRing K] {o : Ops K} (ho : OrderedEqLike o)
+    (f : Family) (hf : f ∈ families) (htm : f.treeMode = true) (hw : f.treeWalk = true) (hk : f.kind = .frac)
+    (ks : List Nat) (hks : ks ∈ f.keys) (j : Nat) (hj : j < f.nOut ks) (env : Nat → K)
+    (hd1 : (((lookup f.unit ks).out j).select o env).divOK o env) (hd2 : ((f.specT ks j).select o env).divOK o env) :
+    ((lookup f.unit ks).out j).eval o env = (f.specT ks j).eval o env :=
+  Family.walk_frac_sound ho (all_ok f hf) htm hw hk hks hj env hd1 hd2
+
 end Glm.Props.C08
